@@ -92,3 +92,28 @@ def _set_domain(with_value):
                 yield d
 
     return gen
+
+# ---------------------------------------------------------------------------------------------
+# parse-time merge of attrpath-derived nested sets (`a.b.c = 1; a.b.d = 2;` -> one tree).  No ownership invariant is
+# assumed, so no whole-tree postcondition is stated; what is proved is what every step hands on: a binding is appended
+# only when the target has no binding of that name yet, and a same-named pair of nested sets is merged into exactly
+# the existing binding's own set (C05 / C04 / C14: the tree that set / rm / lookups navigate agrees with the text).
+contract(
+    target=f"{F}::_merge_attrpath_sets",
+    params={"target": Ref("AttributeSet"), "incoming": Ref("AttributeSet")},
+    returns=NoneT,
+    modifies=["*"],
+    call_asserts={
+        "target.values.append#0": ["isinstance(arg0, Binding) and arg0 is item", "first_binding(target.values, item.name) is None"],
+        "_merge_attrpath_sets": ["existing is first_binding(caller_target.values, item.name)", "target is existing.value and incoming is item.value",
+                                 "isinstance(existing.value, AttributeSet) and isinstance(item.value, AttributeSet)",
+                                 "existing.nested == item.nested"],
+        "target.values.append#1": ["arg0 is item and not (existing.nested and item.nested)"],
+        "target.values.append#2": ["arg0 is item and not isinstance(item, Binding)"],
+    },
+    ensures=[],
+    exsures={"ValueError": []},
+    loops={0: Loop(invariant=["True"], modifies=["*"])},
+    domain=False,
+    props=["C05", "C04", "C14"],
+)
